@@ -696,8 +696,20 @@ def _arg_combine(data, axis, argfunc, keepdims=False):
     arg = data["arg"]
     if axis is None:
         local_args = argfunc(vals, axis=axis, keepdims=keepdims)
-        vals = vals.ravel()[local_args]
-        arg = arg.ravel()[local_args]
+        flat_vals = vals.ravel()
+        flat_arg = arg.ravel()
+        vals = flat_vals[local_args]
+        arg = flat_arg[local_args]
+        # Ties: NumPy reports the first occurrence in C order of the whole
+        # array, which is the smallest flat index among the tied partial
+        # results -- not necessarily the one from the first block.
+        best = vals.ravel()[0]
+        tied = flat_vals == best
+        if best != best:  # NaN propagates; the first NaN wins
+            tied = flat_vals != flat_vals
+        if tied.sum() > 1:
+            first = flat_arg[tied].min()
+            arg = np.full_like(arg, first) if np.ndim(arg) else first
     else:
         local_args = argfunc(vals, axis=axis)
         inds = list(np.ogrid[tuple(map(slice, local_args.shape))])
